@@ -593,6 +593,10 @@ def mon_c05_generic(h, sc, obs):
     acts_ = {(e['pid'], e['tid']) for e in h.creates if e['kind'] == 'act'}
     ended, ended_seq, opened = {}, {}, {}
     facts = model_facts(sc)
+    writes = collections.defaultdict(list)
+    for e_ in h.states:
+        if e_['via'] == 'set':
+            writes[(e_['pid'], e_['tid'])].append(e_)
     evs = sorted([('s', e['seq'], e) for e in h.states if e['via'] == 'set'] + [('a', a['call'], a) for a in h.actions] + [('c', e['seq'], e) for e in h.cbs if e['what'] != 'start'], key=lambda x: x[1])
     for kind, _, e in evs:
         if kind == 's':
@@ -608,6 +612,11 @@ def mon_c05_generic(h, sc, obs):
                 continue
             obs['c05.accepted-actions-checked'] += 1
             st = last.get(k)
+            if st in TERM and any(w_['new'] not in TERM and w_.get('thread') != e.get('thread') for w_ in writes.get(k, []) if e['call'] < w_['seq'] < e['seq']):
+                # the call waited for the process lock: somebody else (the catch of a racing error action) reopened the
+                # act before this action ran
+                obs['c05.accepted-after-a-concurrent-reopening'] += 1
+                st = None
             if st in TERM:
                 out.append(V('C05', 'accepted-on-terminal-act', f"{e['action']}:{st}", f"{e['action']} was accepted on act {e['tid']} whose last recorded state was {st}"))
             elif ended.get(e['pid']) in NONERR_END and opened.get(k, 0) > ended_seq[e['pid']]:
